@@ -10,6 +10,7 @@ import (
 	"sort"
 	"strings"
 	"sync"
+	"time"
 
 	"github.com/openfga/openfga/internal/validation"
 	"github.com/openfga/openfga/pkg/typesystem"
@@ -185,6 +186,11 @@ func exec(line string, st *hx.Stats) string {
 				add(fgarun.Check(ts, ds, fgarun.Config{MaxDepth: uint32(depth), Breadth: br, Strategy: strat}, rq, ctxT, pl))
 			}
 		}
+		if len(tuples) > 200 {
+			// large fan-out cases: once more with a slow right-hand side (the consumer lags the producers)
+			slow := fgarun.SlowReads{OpenFGADatastore: ds, Delay: 150 * time.Millisecond}
+			add(fgarun.Check(ts, slow, fgarun.Config{MaxDepth: uint32(depth), Breadth: 25, Strategy: strat}, rq, ctxT, &fgarun.ForcedPlanner{Want: strat}))
+		}
 		var wg sync.WaitGroup
 		for g := 0; g < 8; g++ {
 			wg.Add(1)
@@ -201,11 +207,7 @@ func exec(line string, st *hx.Stats) string {
 		sort.Strings(cs)
 		parts = append(parts, strat+":"+strings.Join(cs, "|"))
 	}
-	var off []string
-	for k := range offered {
-		off = append(off, k)
-	}
-	sort.Strings(off)
+	off := fgarun.OfferedSnapshot(offered)
 	for _, o := range off {
 		st.Inc("offered:" + o)
 	}
